@@ -14,7 +14,10 @@ tracked at API level (`ST.phase`): `close` / `switch` = inside a closing or swit
 X, `body` = user code inside a block (an exception propagating out of an OPEN block is the recorded
 finding C08-block-unwind and is tagged `open-region`, so the two stay distinguishable).
 
-Protocol: `BG|id|p=..,bl=..|<json statement list>` -> `id|status|G=..|IGN=..|ONE=..|NPRIV|NCONS|<json report>`
+Configuration `ign=1`: the history runs after the user's own `pysnark.runtime.ignore_errors(True)` (real API); the flag is then on
+at every probe, whatever the nesting, and must still be on after every block.
+
+Protocol: `BG|id|p=..,bl=..[,ign=1]|<json statement list>` -> `id|status|G=..|IGN=..|ONE=..|NPRIV|NCONS|<json report>`
 Statements:
   ["set", name, v]                      _.name = PrivVal(v)
   ["setk", name, v, k]                  inside a loop: only in iteration k
@@ -266,6 +269,8 @@ def main():
         try:
             cfg = dict((k, int(v)) for k, v in (kv.split("=") for kv in f[2].split(",")))
             W.reset({"p": cfg["p"], "bl": cfg["bl"]})
+            if cfg.get("ign"):
+                R.ignore_errors(True)       # configuration `ign=1`: the user selected the error-suppression mode before the history
             stmts = json.loads(f[3])
             src = source(stmts)
             st = State(cfg["p"])
